@@ -17,19 +17,22 @@ Opts == {"none", "valid", "unknown", "illtyped", "objno_range",
          "solcount",           \* valid: sol:count=1 (multiple-solution suffixes)
          "optfile_self",       \* tech:optionfile naming a file that includes itself
          "optfile_missing",    \* tech:optionfile naming a file that does not exist
-         "solstub"}            \* valid: sol:stub=alt sol:count=1, the solver reports NAlt further solutions
+         "solstub",            \* valid: sol:stub=alt sol:count=1, the solver reports NAlt further solutions
+         "warn2"}              \* valid; the solver adds two warnings (the solve message gets empty lines inside)
 Modes == {"ampl", "wantsol", "plain"}
 Names == {"absent", "present", "short", "crlf",
           "emptyfirst"}        \* malformed: the names files start with an empty line
 Outs == {"ok", "blocked",
          "full"}               \* the result path accepts open() but fails on write/close (device full)
-NewValues == {"infeas_nested", "ok_noobj", "ok_obj2", "solcount", "optfile_self", "optfile_missing", "emptyfirst", "full", "solstub"}
+NewValues == {"infeas_nested", "ok_noobj", "ok_obj2", "solcount", "optfile_self", "optfile_missing", "emptyfirst", "full", "solstub", "warn2"}
 Scripted == 0                  \* the result code the scripted solver reports
 NAlt == 3                      \* further solutions the scripted solver reports in a "solstub" scenario
 \* the scenario space: the complete product of the round-1 values, plus every scenario that uses
 \* exactly one of the values added later (keeps the run count linear in the additions)
 NewCount(s) == Cardinality({f \in {"model", "opt", "names", "out"} : s[f] \in NewValues})
-Scenarios == {s \in [model : Models, opt : Opts, mode : Modes, names : Names, out : Outs] : NewCount(s) <= 1}
+\* ... plus the pairs of later values that touch the same mechanism (solution counting x objectives)
+Paired(s) == s.model \in {"ok_noobj", "ok_obj2"} /\ s.opt \in {"solcount", "solstub"} /\ s.names \in {"absent", "present"} /\ s.out = "ok"
+Scenarios == {s \in [model : Models, opt : Opts, mode : Modes, names : Names, out : Outs] : NewCount(s) <= 1 \/ Paired(s)}
 
 HeaderReadable(s) == s.model \notin {"trunc_header", "empty", "missing"}
 BodyBad(s) == s.model \in {"trunc_body", "bad_opcode", "bad_index"}
